@@ -112,6 +112,11 @@ def emit_item(it):
     if k == "array":
         init = it["text"] if "text" in it else rexpr(it, it["node"], 3)
         return "extern %s %s[%s];" % (it.get("el", "int"), it["name"], init)
+    if k == "tmpl":
+        # (a template argument must not contain an unparenthesised '>')
+        return "extern XT<(%s)> %s;" % (rexpr(it, it["node"], 3), it["name"])
+    if k == "defarg":
+        return "void %s(int x = %s);" % (it["name"], rexpr(it, it["node"], 3))
     if k == "var":
         return "%s %s = %s;" % (it["decl"], it["name"], rexpr(it, it["node"], 3))
     if k == "raw":
@@ -135,6 +140,8 @@ def constants_of(it):
         return [(it["name"], "macro", "(" + it["name"] + ")")]
     if k == "array":
         return [(it["name"], "array", "sizeof(%s)/sizeof(%s[0])" % (it["name"], it["name"]))]
+    if k == "tmpl":
+        return [(it["name"], "tmpl", "sizeof(%s.v)/sizeof(int)" % it["name"])]
     return []
 
 
@@ -154,7 +161,7 @@ def expected_py(it):
                 break
             out[e] = v
             prev = v
-    elif k in ("enum", "macro", "array") and it.get("node") is not None:
+    elif k in ("enum", "macro", "array", "tmpl") and it.get("node") is not None:
         r = E.try_eval(it["node"])
         if r:
             out[it["en"] if k == "enum" else it["name"]] = r[0]
@@ -314,7 +321,19 @@ def read_db(d):
             arrays[e["name"]] = t["array_size"]
         else:
             arrays[e["name"]] = None
-    return dict(enums=enums, enum_types=enum_types, manifests=mans, arrays=arrays)
+    # `extern XT<expr> name;` with template<int N> struct XT { int v[N]; }: size of the member array of name's type
+    elems = {e["index"]: e for e in d["elements"]}
+    tmpl = {}
+    for e in d["elements"]:
+        t = types.get(e["type"])
+        if t is not None and (t["is_struct"] or t["is_class"]):
+            for ei in t["elements"]:
+                m = elems.get(ei["index"] if isinstance(ei, dict) else ei)
+                mt = types.get(m["type"]) if m else None
+                if mt is not None and mt["is_array"]:
+                    tmpl[e["name"]] = mt["array_size"]
+    protos = {f["name"]: f.get("prototype", "") for f in d["functions"]}
+    return dict(enums=enums, enum_types=enum_types, manifests=mans, arrays=arrays, tmpl=tmpl, protos=protos)
 
 
 def observe(db, it):
@@ -331,6 +350,9 @@ def observe(db, it):
     elif k == "macro":
         m = db["manifests"].get(it["name"])
         out[it["name"]] = ("missing",) if m is None else (("val", m[1]) if m[0] else ("uneval",))
+    elif k == "tmpl":
+        sz = db["tmpl"].get(it["name"])
+        out[it["name"]] = ("missing",) if sz is None else (("uneval",) if sz < 0 else ("val", sz))
     elif k == "array":
         if it["name"] not in db["arrays"]:
             out[it["name"]] = ("missing",)
@@ -748,7 +770,7 @@ def ctx_minimise(B, it, ob, cn=None):
         return probe
 
     def fails(n):
-        if it["k"] == "array":
+        if it["k"] in ("array", "tmpl"):
             v = E.try_eval(n)
             if v is None or v[0] < 1:
                 return None
@@ -761,6 +783,27 @@ def ctx_minimise(B, it, ob, cn=None):
     cur = node
     out = fails(cur)
     if out is None or out[0] == "ok":
+        # fine on its own, wrong in company: does another declaration of the same kind leak into it?  (types are
+        # uniqued by comparing their expressions; an incomplete comparison makes `int[4*2]` *be* `int[4+2]`)
+        got = ob[1] if ob[0] == "wrong" else None
+        cands = [x for x in B.items if x is not it and x["k"] == it["k"] and x.get("node") is not None
+                 and x.get("el") == it.get("el")]
+
+        def rank(x):
+            dtag = shape_difference(x["node"], node)
+            near = dtag in ("binop-operator", "unop-operator") or dtag.startswith("cond-operand")
+            hint = got is not None and (E.try_eval(x["node"]) or (None,))[0] == got
+            return (0 if near else 1, 0 if hint else 1)
+        cands.sort(key=rank)
+        for partner in cands[:8]:
+            pair = [partner, it]
+            st, db, r = B.runner.run(B.support(pair) + pair, B.flavor, B.prelude)
+            if st is not None:
+                continue
+            o2 = B.node_outcome(observe(db, it)[constants_of(it)[0][0]], node)
+            if o2[0] != "ok":
+                key = "%s:crosstalk:ctx=%s:differs=%s" % (cat, ctxname, shape_difference(partner["node"], node))
+                return key, emit_item(partner) + "\n" + emit_item(it), node, B.support(pair) + pair
         # not reproducible in isolation: report the item itself, keyed by context + root construct
         return "%s:%s:ctx=%s,not-isolated" % (cat, E.root_sig(node), ctxname), emit_item(it), node, \
             B.support([it]) + [it]
@@ -841,6 +884,31 @@ def ctx_minimise(B, it, ob, cn=None):
         (",lit=" + "+".join(lits) if lits else "")
     pr = mkprobe(cur)
     return B.key_for(cur, out, note), emit_item(pr), cur, B.support([pr]) + [pr]
+
+
+def shape_difference(a, b):
+    """what distinguishes two expression trees, found at the first place they differ (finite alphabet)"""
+    while a[0] == "par":
+        a = a[1]
+    while b[0] == "par":
+        b = b[1]
+    if a[0] != b[0]:
+        return "node-kind"
+    k = a[0]
+    if k == "lit":
+        return "same" if a[2] == b[2] else "literal-value"
+    if k == "ref":
+        return "same" if a[2] == b[2] else "reference"
+    if k in ("un", "bin") and a[1] != b[1]:
+        return "unop-operator" if k == "un" else "binop-operator"
+    if k == "cast" and (a[1], a[2]) != (b[1], b[2]):
+        return "cast-form" if a[2] == b[2] else "cast-type"
+    ca, cb = E.children(a), E.children(b)
+    for i, (x, y) in enumerate(zip(ca, cb)):
+        d = shape_difference(x, y)
+        if d != "same":
+            return ("cond-operand%d:" % (i + 1) if k == "cond" else "") + d
+    return "same"
 
 
 def node_at(n, path):
@@ -1104,6 +1172,147 @@ def gen_uneval(case):
 
 
 # ---------------------------------------------------------------------------
+# the cross-talk family: several constant expressions of the same operand shape in ONE translation unit
+# ---------------------------------------------------------------------------
+
+XT_PRELUDE = "template<int N> struct XT { int v[N]; };\n"
+
+
+def gen_xtalk(case):
+    """groups of declarations whose expressions differ only in an operator (or in operand order / one operand), as array
+    bounds, template arguments and default arguments.  Types (and functions) are uniqued by comparing the expressions
+    they contain, so a value can leak from one declaration into another; evaluated in isolation each is right."""
+    rng = random.Random("C07x:%s" % case["subseed"])
+    L = lambda v: ["lit", str(v), v, "i"]
+    items = []
+    n = [0]
+
+    def add(ctx, node):
+        v = E.try_eval(node)
+        if v is None or (ctx in ("array", "tmpl") and not (1 <= v[0] <= 4096)):
+            return
+        n[0] += 1
+        if ctx == "array":
+            items.append(dict(k="array", name="xa_%d" % n[0], node=node, el=el[0]))
+        elif ctx == "tmpl":
+            items.append(dict(k="tmpl", name="xt_%d" % n[0], node=node))
+        elif ctx == "defarg":
+            items.append(dict(k="defarg", name="xf_%d" % n[0], node=node))
+        else:
+            items.append(dict(k="enum", name="XE_%d" % n[0], en="xe_%d" % n[0], node=node))
+
+    el = ["int"]
+    for g in range(case.get("groups", 10)):
+        el[0] = rng.choice(["int", "int", "char", "double"])     # one element type per group: same type, same bound shape
+        ctx = rng.choice(["array", "array", "tmpl", "defarg", "enum"])
+        kind = rng.choice(["bin", "bin", "bin", "swap", "un", "cond", "nested", "cast"])
+        a, b, c = rng.randint(2, 9), rng.randint(1, 5), rng.randint(2, 6)
+        variants = []
+        if kind == "bin":
+            ops = [o for o in E.BINOPS if o != ","]
+            rng.shuffle(ops)
+            variants = [["bin", o, L(a), L(b)] for o in ops[:rng.randint(3, 6)]]
+        elif kind == "swap":
+            o = rng.choice(["-", "<<", "/", "%", ">>", "<", ">"])
+            big = a + b + 8
+            variants = [["bin", o, L(big), L(b)], ["bin", o, L(b), L(big)], ["bin", "+", L(big), L(b)]]
+        elif kind == "un":
+            x = ["par", ["un", "-", L(a)]]
+            variants = [["un", "-", x], ["un", "~", x], ["un", "!", ["un", "!", x]], ["un", "+", ["un", "-", x]]]
+        elif kind == "cond":
+            variants = [["cond", L(0), L(a), L(b)], ["cond", L(0), L(a), L(b + 1)], ["cond", L(1), L(a), L(b)],
+                        ["cond", L(0), L(a + 1), L(b)], ["cond", L(1), L(a + 1), L(b)]]
+        elif kind == "nested":
+            o1, o2, o3 = rng.sample(["+", "*", "-", "|", "<<"], 3)
+            variants = [["bin", "*", ["par", ["bin", o1, L(a + 5), L(b)]], L(c)],
+                        ["bin", "*", ["par", ["bin", o2, L(a + 5), L(b)]], L(c)],
+                        ["bin", "+", ["par", ["bin", o1, L(a + 5), L(b)]], L(c)],
+                        ["bin", "*", L(c), ["par", ["bin", o3, L(a + 5), L(b)]]]]
+        else:
+            variants = [["cast", "c", "int", L(a)], ["cast", "static", "int", L(a)], ["cast", "c", "bool", L(a)],
+                        ["cast", "c", "int", L(a + 1)], ["cast", "func", "int", L(a)]]
+        rng.shuffle(variants)
+        for v in variants:
+            add(ctx, v)
+    return items
+
+
+def run_xtalk(ctx, case, res):
+    items = case.get("items") or gen_xtalk(case)
+    prelude = XT_PRELUDE
+    B = judge_batch(ctx, dict(case, kind="batch"), res, items, prelude)
+    for it in items:
+        res.features.add("xtalk:%s:%s" % (it["k"], E.root_sig(it["node"])))
+    # default arguments: the database's prototype must show an expression of the same value (its text is evaluated by
+    # g++ next to the original; text g++ rejects is not judged here)
+    fit = [it for it in items if it["k"] == "defarg"]
+    if not fit or res.inconclusive:
+        return
+    st, db, r = B.runner.run([x for x in items if x["k"] in ("defarg",)], "asan", prelude)
+    if st is not None:
+        return
+    lines = ["#include <stdio.h>", "int main() {"]
+    judged = []
+    for it in fit:
+        m = re.search(r"\bx\s*=\s*(.*)\)\s*;?\s*$", db["protos"].get(it["name"], ""))
+        exp = E.try_eval(it["node"])
+        if not m or exp is None:
+            res.count("defarg_not_judged")
+            continue
+        judged.append((it, m.group(1), exp[0]))
+    d = B.d
+    os.makedirs(d, exist_ok=True)
+    vals = {}
+    for it, text, exp in judged:
+        src = os.path.join(d, "da.cxx")
+        open(src, "w").write("#include <stdio.h>\nint main() { printf(\"%%lld %%lld\\n\", (long long)(%s), "
+                             "(long long)(%s)); return 0; }\n" % (text, rexpr(it, it["node"], 3)))
+        rr = tools.gxx(["-w", "-O0", "-o", os.path.join(d, "da"), src], timeout=120, cwd=d)
+        if rr.rc != 0:
+            res.count("defarg_text_rejected_by_reference")
+            continue
+        out = core.run([os.path.join(d, "da")], timeout=20).out.split()
+        if len(out) != 2 or int(out[1]) != exp:
+            res.count("oracle_disagree")
+            continue
+        res.count("constants_compared")
+        if int(out[0]) == exp:
+            res.count("constants_equal")
+            res.features.add("ctx:defarg")
+            continue
+        # wrong on its own, or only in company?
+        st1, db1, r1 = B.runner.run([it], B.flavor, prelude)
+        alone = re.search(r"\bx\s*=\s*(.*)\)\s*;?\s*$", db1["protos"].get(it["name"], "")) if st1 is None else None
+        partner = None
+        near = [x for x in fit if x is not it and E.try_eval(x["node"]) and E.try_eval(x["node"])[0] == int(out[0])]
+        near.sort(key=lambda x: 0 if shape_difference(x["node"], it["node"]) in
+                  ("binop-operator", "unop-operator") or shape_difference(x["node"], it["node"]).startswith("cond")
+                  else 1)
+        for x in near[:4]:
+            st2, db2, r2 = B.runner.run([x, it], B.flavor, prelude)
+            m2 = re.search(r"\bx\s*=\s*(.*)\)\s*;?\s*$", db2["protos"].get(it["name"], "")) if st2 is None else None
+            if m2 and m2.group(1) == text:
+                partner = x
+                break
+        if alone and alone.group(1) != text and partner is not None:
+            key = "wrong-value:crosstalk:ctx=defarg:differs=%s" % shape_difference(partner["node"], it["node"])
+            wit = [partner, it]
+        elif alone and alone.group(1) != text:
+            # right alone, wrong in company, but no single partner reproduces it
+            key = "wrong-value:crosstalk:ctx=defarg:differs=partner-not-identified"
+            wit = list(fit)
+        else:
+            key = "wrong-value:%s:ctx=defarg" % E.root_sig(it["node"])
+            wit = [it]
+        res.count("failing_constants")
+        res.features.add("failure:" + key)
+        res.violation(key, witness="\n".join(emit_item(x) for x in wit), got=int(out[0]), expected=exp,
+                      prototype=db["protos"].get(it["name"]),
+                      replay_case=dict(id="w", kind="xtalk", items=wit))
+    shutil.rmtree(d, ignore_errors=True)
+
+
+# ---------------------------------------------------------------------------
 # cases
 # ---------------------------------------------------------------------------
 
@@ -1118,6 +1327,8 @@ def run_case(ctx, case):
             judge_batch(ctx, case, res, case["items"], case.get("prelude", ""))
         elif kind == "uneval":
             run_uneval(ctx, case, res)
+        elif kind == "xtalk":
+            run_xtalk(ctx, case, res)
         else:
             raise core.HarnessError("unknown case kind " + str(kind))
     except Watchdog:
@@ -1272,6 +1483,8 @@ def main(chk):
                           profile=prof))
     for i in range(chk.pick(2, 12)):
         cases.append(dict(id="u%d" % i, kind="uneval", subseed=chk.rng.getrandbits(48), n=chk.pick(40, 80)))
+    for i in range(chk.pick(6, 60)):
+        cases.append(dict(id="x%d" % i, kind="xtalk", subseed=chk.rng.getrandbits(48), groups=chk.pick(10, 14)))
     chk.run_cases(__name__, cases)
     chk.extra["operator_pairs_total"] = len(pairs)
     chk.extra["operator_pair_signatures_seen_equal"] = len([f for f in chk.features if f.startswith("pair:")])
